@@ -9,7 +9,7 @@ for p in props:
     pid = p["id"]
     f = os.path.join(ROOT, "props", pid + ".json")
     cfg = json.load(open(f)) if os.path.exists(f) else None
-    if not cfg or not cfg.get("claimed", True):
+    if not cfg or not cfg.get("claimed", False):
         na.append(dict(property_id=pid, reason=(cfg or {}).get("na_reason", "check not built yet in this round (work in progress; see DESIGN.md section 6 for the plan)")))
         continue
     checks.append(dict(
